@@ -25,29 +25,35 @@ theorem mapE_forall2 {α β ε : Type} {f : α → Except ε β} {l : List α} {
         cases h
         exact .cons hb (ih hbs)
 
-theorem mapE_mem_right {α β ε : Type} {f : α → Except ε β} {l : List α} {r : List β}
-    (h : mapE f l = .ok r) {b : β} (hb : b ∈ r) : ∃ a ∈ l, f a = .ok b := by
-  have := mapE_forall2 h
-  induction this with
+theorem All2.mem_right {α β : Type} {R : α → β → Prop} {l : List α} {r : List β} (h : All2 R l r)
+    {b : β} (hb : b ∈ r) : ∃ a ∈ l, R a b := by
+  induction h with
   | nil => cases hb
   | cons hab _ ih =>
     cases hb with
     | head => exact ⟨_, by simp, hab⟩
     | tail _ hb' =>
-      obtain ⟨a, ha, hfa⟩ := ih (by assumption) hb'
-      · exact ⟨a, by simp [ha], hfa⟩
+      obtain ⟨a, ha, hfa⟩ := ih hb'
+      exact ⟨a, by simp [ha], hfa⟩
 
-theorem mapE_mem_left {α β ε : Type} {f : α → Except ε β} {l : List α} {r : List β}
-    (h : mapE f l = .ok r) {a : α} (ha : a ∈ l) : ∃ b ∈ r, f a = .ok b := by
-  have := mapE_forall2 h
-  induction this with
+theorem All2.mem_left {α β : Type} {R : α → β → Prop} {l : List α} {r : List β} (h : All2 R l r)
+    {a : α} (ha : a ∈ l) : ∃ b ∈ r, R a b := by
+  induction h with
   | nil => cases ha
   | cons hab _ ih =>
     cases ha with
     | head => exact ⟨_, by simp, hab⟩
     | tail _ ha' =>
-      obtain ⟨b, hb, hfa⟩ := ih (by assumption) ha'
-      · exact ⟨b, by simp [hb], hfa⟩
+      obtain ⟨b, hb, hfa⟩ := ih ha'
+      exact ⟨b, by simp [hb], hfa⟩
+
+theorem mapE_mem_right {α β ε : Type} {f : α → Except ε β} {l : List α} {r : List β}
+    (h : mapE f l = .ok r) {b : β} (hb : b ∈ r) : ∃ a ∈ l, f a = .ok b :=
+  (mapE_forall2 h).mem_right hb
+
+theorem mapE_mem_left {α β ε : Type} {f : α → Except ε β} {l : List α} {r : List β}
+    (h : mapE f l = .ok r) {a : α} (ha : a ∈ l) : ∃ b ∈ r, f a = .ok b :=
+  (mapE_forall2 h).mem_left ha
 
 theorem firstBad_none {α : Type} {p : α → Bool} {l : List α} (h : firstBad p l = none) :
     ∀ a ∈ l, p a = false := by
@@ -71,5 +77,510 @@ theorem dupName_none {l : List Name} (h : dupName l = none) : l.Nodup := by
     · cases h
     · rename_i hx
       exact List.nodup_cons.mpr ⟨by simpa using hx, ih h⟩
+
+/-! ## elementary types -/
+
+theorem IsElem.det {lib : Lib} {t : Ty} {b b' : String} (h : IsElem lib t b) (h' : IsElem lib t b') : b = b' := by
+  induction h generalizing b' with
+  | builtin b => cases h'; rfl
+  | short hf hs he _ ih =>
+    cases h' with
+    | short hf' hs' he' h'' =>
+      rw [hf] at hf'; cases hf'
+      rw [he] at he'; cases he'
+      exact ih h''
+
+theorem elemOf_some {f : Nat} {lib : Lib} {t : Ty} {b : String} {ms : List (List Mod)}
+    (h : elemOf f lib t = .ok (some (b, ms))) : IsElem lib t b := by
+  induction f generalizing t b ms with
+  | zero =>
+    cases t with
+    | builtin b' => simp [elemOf] at h; rw [← h.1]; exact .builtin _
+    | cls p => simp [elemOf] at h
+  | succ f ih =>
+    cases t with
+    | builtin b' => simp [elemOf] at h; rw [← h.1]; exact .builtin _
+    | cls p =>
+      simp only [elemOf] at h
+      split at h
+      · cases h
+      · rename_i d hd
+        split at h
+        · rename_i hs
+          split at h
+          · rename_i t' m hex
+            split at h
+            · cases h
+            · cases h
+            · rename_i b' ms' hrec
+              cases h
+              exact .short hd hs hex (ih hrec)
+          · cases h
+        · cases h
+
+theorem elemOf_none {f : Nat} {lib : Lib} {t : Ty} (h : elemOf f lib t = .ok none) : ∀ b, ¬ IsElem lib t b := by
+  induction f generalizing t with
+  | zero =>
+    cases t with
+    | builtin b' => simp [elemOf] at h
+    | cls p => simp [elemOf] at h
+  | succ f ih =>
+    cases t with
+    | builtin b' => simp [elemOf] at h
+    | cls p =>
+      simp only [elemOf] at h
+      split at h
+      · cases h
+      · rename_i d hd
+        split at h
+        · rename_i hs
+          split at h
+          · rename_i t' m hex
+            split at h
+            · cases h
+            · rename_i hrec
+              intro b hb
+              cases hb with
+              | short hf' hs' he' h'' =>
+                rw [hd] at hf'; cases hf'
+                rw [hex] at he'; cases he'
+                exact ih hrec b h''
+            · cases h
+          · cases h
+        · rename_i hs
+          intro b hb
+          cases hb with
+          | short hf' hs' he' h'' =>
+            rw [hd] at hf'; cases hf'
+            exact hs hs'
+
+/-! ## members -/
+
+theorem inheritStep_ok {elem : Ty → Except Err (Option (String × List (List Mod)))}
+    {rec : Path → Except Err (List Member)} {tm : Ty × List Mod} {l : List Member}
+    (h : inheritStep elem rec tm = .ok l) :
+    ∃ b ms, tm.1 = .cls b ∧ elem (.cls b) = .ok none ∧ rec b = .ok ms ∧
+      (∀ m ∈ tm.2, Mod.headIn (ms.map (·.comp.name)) m = true) ∧
+      l = ms.map (fun x => { x with ext := x.ext ++ [tm.2] }) := by
+  unfold inheritStep at h
+  split at h
+  · cases h
+  · rename_i b hb
+    split at h
+    · cases h
+    · cases h
+    · rename_i he
+      split at h
+      · cases h
+      · rename_i ms hr
+        split at h
+        · cases h
+        · rename_i hfb
+          cases h
+          refine ⟨b, ms, hb, he, hr, ?_, rfl⟩
+          intro m hm
+          have := firstBad_none hfb m hm
+          simpa using this
+
+theorem membersF_ok {f : Nat} {lib : Lib} {p : Path} {ms : List Member} (h : membersF f lib p = .ok ms) :
+    ∃ f' d inh, f = f' + 1 ∧ lib.find p = some d ∧
+      mapE (inheritStep (elemOf f' lib) (membersF f' lib)) d.exts = .ok inh ∧
+      ms = inh.flatten ++ d.comps.map (fun k => { comp := k, ext := [] }) := by
+  cases f with
+  | zero => simp [membersF] at h
+  | succ f' =>
+    simp only [membersF] at h
+    split at h
+    · cases h
+    · rename_i d hd
+      split at h
+      · cases h
+      · rename_i inh hi
+        cases h
+        exact ⟨f', d, inh, rfl, hd, hi, rfl⟩
+
+theorem members_sound {f : Nat} {lib : Lib} {p : Path} {ms : List Member} (h : membersF f lib p = .ok ms)
+    {m : Member} (hm : m ∈ ms) : MemberOf lib p m.comp := by
+  induction f generalizing p ms m with
+  | zero => simp [membersF] at h
+  | succ f ih =>
+    obtain ⟨f', d, inh, hf, hd, hi, rfl⟩ := membersF_ok h
+    cases hf
+    rcases List.mem_append.mp hm with hm | hm
+    · obtain ⟨l, hl, hml⟩ := List.mem_flatten.mp hm
+      obtain ⟨tm, htm, hstep⟩ := mapE_mem_right hi hl
+      obtain ⟨b, ms', htb, _, hrec, _, rfl⟩ := inheritStep_ok hstep
+      obtain ⟨x, hx, rfl⟩ := List.mem_map.mp hml
+      have : (tm.1, tm.2) ∈ d.exts := htm
+      rw [htb] at this
+      exact .inh hd this (ih (m := x) hrec hx)
+    · obtain ⟨k, hk, rfl⟩ := List.mem_map.mp hm
+      exact .own hd hk
+
+theorem members_complete {lib : Lib} {p : Path} {k : Comp} (hk : MemberOf lib p k) :
+    ∀ {f : Nat} {ms : List Member}, membersF f lib p = .ok ms → ∃ m ∈ ms, m.comp = k := by
+  induction hk with
+  | own hd hk =>
+    intro f ms h
+    obtain ⟨f', d', inh, _, hd', _, rfl⟩ := membersF_ok h
+    rw [hd] at hd'; cases hd'
+    exact ⟨{ comp := _, ext := [] }, List.mem_append_right _ (List.mem_map.mpr ⟨_, hk, rfl⟩), rfl⟩
+  | inh hd he _ ih =>
+    intro f ms h
+    obtain ⟨f', d', inh, _, hd', hi, rfl⟩ := membersF_ok h
+    rw [hd] at hd'; cases hd'
+    obtain ⟨l, hl, hstep⟩ := mapE_mem_left hi he
+    obtain ⟨b', ms', htb, _, hrec, _, rfl⟩ := inheritStep_ok hstep
+    cases htb
+    obtain ⟨x, hx, hxk⟩ := ih hrec
+    exact ⟨{ x with ext := x.ext ++ [_] }, List.mem_append_left _
+      (List.mem_flatten.mpr ⟨_, hl, List.mem_map.mpr ⟨x, hx, rfl⟩⟩), hxk⟩
+
+/-- every extends-clause modification list attached to a member is one of the class or a base -/
+theorem members_ext {f : Nat} {lib : Lib} {p : Path} {ms : List Member} (h : membersF f lib p = .ok ms)
+    {m : Member} (hm : m ∈ ms) {l : List Mod} (hl : l ∈ m.ext) : ExtClauseOf lib p l := by
+  induction f generalizing p ms m with
+  | zero => simp [membersF] at h
+  | succ f ih =>
+    obtain ⟨f', d, inh, hf, hd, hi, rfl⟩ := membersF_ok h
+    cases hf
+    rcases List.mem_append.mp hm with hm | hm
+    · obtain ⟨l', hl', hml⟩ := List.mem_flatten.mp hm
+      obtain ⟨tm, htm, hstep⟩ := mapE_mem_right hi hl'
+      obtain ⟨b, ms', htb, _, hrec, _, rfl⟩ := inheritStep_ok hstep
+      obtain ⟨x, hx, rfl⟩ := List.mem_map.mp hml
+      have htm' : (tm.1, tm.2) ∈ d.exts := htm
+      rcases List.mem_append.mp hl with hl | hl
+      · rw [htb] at htm'
+        exact .inh hd htm' (ih hrec hx hl)
+      · simp at hl; subst hl
+        exact .own hd htm'
+    · obtain ⟨k, hk, rfl⟩ := List.mem_map.mp hm
+      cases hl
+
+/-- modifications of an extends clause name members of the base (checked by `membersF`) -/
+theorem members_ext_heads {f : Nat} {lib : Lib} {p : Path} {ms : List Member} (h : membersF f lib p = .ok ms)
+    {m : Member} (hm : m ∈ ms) {l : List Mod} (hl : l ∈ m.ext) {x : Mod} (hx : x ∈ l) : x.path ≠ [] := by
+  induction f generalizing p ms m with
+  | zero => simp [membersF] at h
+  | succ f ih =>
+    obtain ⟨f', d, inh, hf, hd, hi, rfl⟩ := membersF_ok h
+    cases hf
+    rcases List.mem_append.mp hm with hm | hm
+    · obtain ⟨l', hl', hml⟩ := List.mem_flatten.mp hm
+      obtain ⟨tm, htm, hstep⟩ := mapE_mem_right hi hl'
+      obtain ⟨b, ms', htb, _, hrec, hheads, rfl⟩ := inheritStep_ok hstep
+      obtain ⟨y, hy, rfl⟩ := List.mem_map.mp hml
+      rcases List.mem_append.mp hl with hl | hl
+      · exact ih hrec hy hl
+      · simp at hl; subst hl
+        have := hheads x hx
+        intro hnil
+        simp [Mod.headIn, hnil] at this
+    · obtain ⟨k, hk, rfl⟩ := List.mem_map.mp hm
+      cases hl
+
+/-! ## the instance tree: decomposition of a successful `instF` -/
+
+/-- input/output are kept exactly on paths of length one -/
+def keepIO (n : Nat) (prefixes : List String) : List String :=
+  if n = 1 then prefixes else prefixes.filter fun x => x != "input" && x != "output"
+
+theorem stripIO_eq (P : Path) (pre : List String) : stripIO P pre = keepIO (P.length + 1) pre := by
+  cases P <;> simp [stripIO, keepIO]
+
+theorem mkLeaf_ok {P : Path} {k : Comp} {b : String} {tms : List (List Mod)} {all : List MMod} {dims : List Nat}
+    {r : List Var × List IEq} (h : mkLeaf P k b tms all dims = .ok r) :
+    ∃ tm, typeMods P tms = .ok tm ∧ (∀ m ∈ tm ++ all, okLeafPath m.path = true) ∧
+      r = ([{ path := P ++ [k.name], ty := b, prefixes := stripIO P k.prefixes, dims := dims ++ k.dims,
+              binds := tm ++ all }], []) := by
+  unfold mkLeaf at h
+  split at h
+  · cases h
+  · rename_i tm htm
+    split at h
+    · cases h
+    · rename_i hfb
+      cases h
+      refine ⟨tm, htm, ?_, rfl⟩
+      intro m hm
+      simpa using firstBad_none hfb m hm
+
+theorem instStep_ok {elem : Ty → Except Err (Option (String × List (List Mod)))}
+    {rec : Path → Path → List MMod → List Nat → Except Err (List Var × List IEq)}
+    {P : Path} {outer : List MMod} {dims : List Nat} {m : Member} {r : List Var × List IEq}
+    (h : instStep elem rec P outer dims m = .ok r) :
+    (∃ b tms, elem m.comp.ty = .ok (some (b, tms)) ∧
+        mkLeaf P m.comp b tms (allMods P m.comp m.ext outer) dims = .ok r) ∨
+    (∃ c', elem m.comp.ty = .ok none ∧ m.comp.ty = .cls c' ∧
+        rec c' (P ++ [m.comp.name]) (allMods P m.comp m.ext outer) (dims ++ m.comp.dims) = .ok r) := by
+  unfold instStep at h
+  split at h
+  · cases h
+  · rename_i b tms he
+    exact .inl ⟨b, tms, he, h⟩
+  · rename_i he
+    split at h
+    · cases h
+    · rename_i c' hc
+      exact .inr ⟨c', he, hc, h⟩
+
+theorem instF_ok {f : Nat} {lib : Lib} {c P : Path} {outer : List MMod} {dims : List Nat}
+    {r : List Var × List IEq} (h : instF f lib c P outer dims = .ok r) :
+    ∃ f' ms eqs rs, f = f' + 1 ∧ membersF f' lib c = .ok ms ∧ (ms.map (·.comp.name)).Nodup ∧
+      (∀ m ∈ outer, MMod.headIn (ms.map (·.comp.name)) m = true) ∧ memberEqsF f' lib c = .ok eqs ∧
+      mapE (instStep (elemOf f' lib) (instF f' lib) P outer dims) ms = .ok rs ∧
+      r = ((rs.map (·.1)).flatten,
+           (rs.map (·.2)).flatten ++ eqs.map fun e => { scope := P, lhs := e.1, rhs := e.2 }) := by
+  cases f with
+  | zero => simp [instF] at h
+  | succ f' =>
+    simp only [instF] at h
+    split at h
+    · cases h
+    · rename_i ms hms
+      split at h
+      · cases h
+      · rename_i hdup
+        split at h
+        · cases h
+        · rename_i hfb
+          split at h
+          · cases h
+          · rename_i eqs heqs
+            split at h
+            · cases h
+            · rename_i rs hrs
+              cases h
+              refine ⟨f', ms, eqs, rs, rfl, hms, dupName_none hdup, ?_, heqs, hrs, rfl⟩
+              intro m hm
+              simpa using firstBad_none hfb m hm
+
+/-! ## flat variables are exactly the leaves -/
+
+theorem Leaf.ne_nil {lib : Lib} {c q : Path} {k : Comp} {b : String} {ds : List Nat}
+    (h : Leaf lib c q k b ds) : q ≠ [] := by
+  cases h <;> simp
+
+theorem inst_vars_sound {f : Nat} {lib : Lib} {c P : Path} {outer : List MMod} {dims : List Nat}
+    {r : List Var × List IEq} (h : instF f lib c P outer dims = .ok r) {v : Var} (hv : v ∈ r.1) :
+    ∃ q k b ds, v.path = P ++ q ∧ Leaf lib c q k b ds ∧ v.ty = b ∧ v.dims = dims ++ ds ∧
+      v.prefixes = keepIO (P.length + q.length) k.prefixes := by
+  induction f generalizing c P outer dims r v with
+  | zero => simp [instF] at h
+  | succ f ih =>
+    obtain ⟨f', ms, eqs, rs, hf, hms, _, _, _, hrs, rfl⟩ := instF_ok h
+    cases hf
+    obtain ⟨l, hl, hvl⟩ := List.mem_flatten.mp hv
+    obtain ⟨r', hr', rfl⟩ := List.mem_map.mp hl
+    obtain ⟨m, hm, hstep⟩ := mapE_mem_right hrs hr'
+    have hmem := members_sound hms hm
+    rcases instStep_ok hstep with ⟨b, tms, he, hleaf⟩ | ⟨c', he, hc, hrec⟩
+    · obtain ⟨tm, _, _, rfl⟩ := mkLeaf_ok hleaf
+      simp at hvl
+      subst hvl
+      exact ⟨[m.comp.name], m.comp, b, m.comp.dims, rfl, .leaf hmem (elemOf_some he), rfl, rfl,
+        by simp [stripIO_eq]⟩
+    · obtain ⟨q, k, b, ds, hp, hleaf, ht, hd, hpre⟩ := ih hrec hvl
+      refine ⟨m.comp.name :: q, k, b, m.comp.dims ++ ds, by simp [hp], .sub hmem hc (elemOf_none he) hleaf, ht,
+        by simp [hd], ?_⟩
+      rw [hpre]
+      congr 1
+      simp
+      omega
+
+theorem inst_vars_complete {lib : Lib} {c q : Path} {k : Comp} {b : String} {ds : List Nat}
+    (hl : Leaf lib c q k b ds) :
+    ∀ {f : Nat} {P : Path} {outer : List MMod} {dims : List Nat} {r : List Var × List IEq},
+      instF f lib c P outer dims = .ok r →
+      ∃ v ∈ r.1, v.path = P ++ q ∧ v.ty = b ∧ v.dims = dims ++ ds ∧
+        v.prefixes = keepIO (P.length + q.length) k.prefixes := by
+  induction hl with
+  | leaf hmem helem =>
+    intro f P outer dims r h
+    obtain ⟨f', ms, eqs, rs, hf, hms, _, _, _, hrs, rfl⟩ := instF_ok h
+    obtain ⟨m, hm, rfl⟩ := members_complete hmem hms
+    obtain ⟨r', hr', hstep⟩ := mapE_mem_left hrs hm
+    rcases instStep_ok hstep with ⟨b', tms, he, hleaf⟩ | ⟨c', he, _, _⟩
+    · obtain ⟨tm, _, _, rfl⟩ := mkLeaf_ok hleaf
+      have hb : b' = _ := (elemOf_some he).det helem
+      refine ⟨_, List.mem_flatten.mpr ⟨_, List.mem_map.mpr ⟨_, hr', rfl⟩, List.mem_singleton.mpr rfl⟩,
+        rfl, hb, rfl, by simp [stripIO_eq]⟩
+    · exact absurd helem (elemOf_none he _)
+  | sub hmem hc hne _ ih =>
+    intro f P outer dims r h
+    obtain ⟨f', ms, eqs, rs, hf, hms, _, _, _, hrs, rfl⟩ := instF_ok h
+    obtain ⟨m, hm, rfl⟩ := members_complete hmem hms
+    obtain ⟨r', hr', hstep⟩ := mapE_mem_left hrs hm
+    rcases instStep_ok hstep with ⟨b', tms, he, _⟩ | ⟨c'', he, hc', hrec⟩
+    · exact absurd (elemOf_some he) (hne _)
+    · rw [hc] at hc'; cases hc'
+      obtain ⟨v, hv, hp, ht, hd, hpre⟩ := ih hrec
+      refine ⟨v, List.mem_flatten.mpr ⟨_, List.mem_map.mpr ⟨_, hr', rfl⟩, hv⟩, by simp [hp], ht, by simp [hd], ?_⟩
+      rw [hpre]
+      congr 1
+      simp
+      omega
+
+/-! ## no flat variable occurs twice -/
+
+theorem All2.imp {α β : Type} {R S : α → β → Prop} {l : List α} {r : List β} (h : All2 R l r)
+    (hi : ∀ a ∈ l, ∀ b, R a b → S a b) : All2 S l r := by
+  induction h with
+  | nil => exact .nil
+  | cons hab _ ih =>
+    exact .cons (hi _ (by simp) _ hab) (ih fun a ha b hr => hi a (by simp [ha]) b hr)
+
+theorem nodup_blocks (P : Path) {ms : List Member} {rs : List (List Var × List IEq)}
+    (hA : All2 (fun m r' => (r'.1.map (·.path)).Nodup ∧ ∀ v ∈ r'.1, ∃ q, v.path = P ++ m.comp.name :: q) ms rs)
+    (hn : (ms.map (·.comp.name)).Nodup) : (((rs.map (·.1)).flatten).map (·.path)).Nodup := by
+  induction hA with
+  | nil => simp
+  | @cons m r' ms' rs' hmr hrest ih =>
+    simp only [List.map_cons, List.flatten_cons, List.map_append]
+    have hn' := List.nodup_cons.mp hn
+    refine List.nodup_append.mpr ⟨hmr.1, ih hn'.2, ?_⟩
+    intro a ha b hb hab
+    obtain ⟨v, hv, rfl⟩ := List.mem_map.mp ha
+    obtain ⟨w, hw, rfl⟩ := List.mem_map.mp hb
+    obtain ⟨q, hq⟩ := hmr.2 v hv
+    obtain ⟨l, hl, hwl⟩ := List.mem_flatten.mp hw
+    obtain ⟨r'', hr'', rfl⟩ := List.mem_map.mp hl
+    obtain ⟨m', hm', hR⟩ := hrest.mem_right hr''
+    obtain ⟨q', hq'⟩ := hR.2 w hwl
+    rw [hq, hq'] at hab
+    have := List.append_cancel_left hab
+    simp at this
+    exact hn'.1 (List.mem_map.mpr ⟨m', hm', this.1.symm⟩)
+
+theorem inst_paths_below {f : Nat} {lib : Lib} {c P : Path} {outer : List MMod} {dims : List Nat}
+    {r : List Var × List IEq} (h : instF f lib c P outer dims = .ok r) {v : Var} (hv : v ∈ r.1) :
+    ∃ n q, v.path = P ++ n :: q := by
+  obtain ⟨q, k, b, ds, hp, hl, _⟩ := inst_vars_sound h hv
+  cases q with
+  | nil => exact absurd rfl hl.ne_nil
+  | cons n q => exact ⟨n, q, hp⟩
+
+theorem inst_nodup {f : Nat} {lib : Lib} {c P : Path} {outer : List MMod} {dims : List Nat}
+    {r : List Var × List IEq} (h : instF f lib c P outer dims = .ok r) : (r.1.map (·.path)).Nodup := by
+  induction f generalizing c P outer dims r with
+  | zero => simp [instF] at h
+  | succ f ih =>
+    obtain ⟨f', ms, eqs, rs, hf, hms, hn, _, _, hrs, rfl⟩ := instF_ok h
+    cases hf
+    refine nodup_blocks P ((mapE_forall2 hrs).imp ?_) hn
+    intro m _ r' hstep
+    rcases instStep_ok hstep with ⟨b, tms, he, hleaf⟩ | ⟨c', he, hc, hrec⟩
+    · obtain ⟨tm, _, _, rfl⟩ := mkLeaf_ok hleaf
+      refine ⟨by simp, ?_⟩
+      intro v hv
+      simp at hv
+      subst hv
+      exact ⟨[], rfl⟩
+    · refine ⟨ih hrec, ?_⟩
+      intro v hv
+      obtain ⟨n, q, hp⟩ := inst_paths_below hrec hv
+      exact ⟨n :: q, by simp [hp]⟩
+
+/-! ## equations -/
+
+theorem memberEqsF_ok {f : Nat} {lib : Lib} {p : Path} {es : List (Expr × Expr)} (h : memberEqsF f lib p = .ok es) :
+    ∃ f' d inh, f = f' + 1 ∧ lib.find p = some d ∧
+      mapE (inheritEqStep (memberEqsF f' lib)) d.exts = .ok inh ∧ es = inh.flatten ++ d.eqs := by
+  cases f with
+  | zero => simp [memberEqsF] at h
+  | succ f' =>
+    simp only [memberEqsF] at h
+    split at h
+    · cases h
+    · rename_i d hd
+      split at h
+      · cases h
+      · rename_i inh hi
+        cases h
+        exact ⟨f', d, inh, rfl, hd, hi, rfl⟩
+
+theorem inheritEqStep_ok {rec : Path → Except Err (List (Expr × Expr))} {tm : Ty × List Mod}
+    {l : List (Expr × Expr)} (h : inheritEqStep rec tm = .ok l) : ∃ b, tm.1 = .cls b ∧ rec b = .ok l := by
+  unfold inheritEqStep at h
+  split at h
+  · cases h
+  · rename_i b hb
+    exact ⟨b, hb, h⟩
+
+theorem memberEqs_sound {f : Nat} {lib : Lib} {p : Path} {es : List (Expr × Expr)} (h : memberEqsF f lib p = .ok es)
+    {e : Expr × Expr} (he : e ∈ es) : MemberEq lib p e := by
+  induction f generalizing p es e with
+  | zero => simp [memberEqsF] at h
+  | succ f ih =>
+    obtain ⟨f', d, inh, hf, hd, hi, rfl⟩ := memberEqsF_ok h
+    cases hf
+    rcases List.mem_append.mp he with he | he
+    · obtain ⟨l, hl, hel⟩ := List.mem_flatten.mp he
+      obtain ⟨tm, htm, hstep⟩ := mapE_mem_right hi hl
+      obtain ⟨b, htb, hrec⟩ := inheritEqStep_ok hstep
+      have : (tm.1, tm.2) ∈ d.exts := htm
+      rw [htb] at this
+      exact .inh hd this (ih hrec hel)
+    · exact .own hd he
+
+theorem memberEqs_complete {lib : Lib} {p : Path} {e : Expr × Expr} (he : MemberEq lib p e) :
+    ∀ {f : Nat} {es : List (Expr × Expr)}, memberEqsF f lib p = .ok es → e ∈ es := by
+  induction he with
+  | own hd he =>
+    intro f es h
+    obtain ⟨f', d', inh, _, hd', _, rfl⟩ := memberEqsF_ok h
+    rw [hd] at hd'; cases hd'
+    exact List.mem_append_right _ he
+  | inh hd hx _ ih =>
+    intro f es h
+    obtain ⟨f', d', inh, _, hd', hi, rfl⟩ := memberEqsF_ok h
+    rw [hd] at hd'; cases hd'
+    obtain ⟨l, hl, hstep⟩ := mapE_mem_left hi hx
+    obtain ⟨b', htb, hrec⟩ := inheritEqStep_ok hstep
+    cases htb
+    exact List.mem_append_left _ (List.mem_flatten.mpr ⟨l, hl, ih hrec⟩)
+
+theorem inst_eqs_sound {f : Nat} {lib : Lib} {c P : Path} {outer : List MMod} {dims : List Nat}
+    {r : List Var × List IEq} (h : instF f lib c P outer dims = .ok r) {e : IEq} (he : e ∈ r.2) :
+    ∃ q c', e.scope = P ++ q ∧ InstAt lib c q c' ∧ MemberEq lib c' (e.lhs, e.rhs) := by
+  induction f generalizing c P outer dims r e with
+  | zero => simp [instF] at h
+  | succ f ih =>
+    obtain ⟨f', ms, eqs, rs, hf, hms, _, _, heqs, hrs, rfl⟩ := instF_ok h
+    cases hf
+    rcases List.mem_append.mp he with he | he
+    · obtain ⟨l, hl, hel⟩ := List.mem_flatten.mp he
+      obtain ⟨r', hr', rfl⟩ := List.mem_map.mp hl
+      obtain ⟨m, hm, hstep⟩ := mapE_mem_right hrs hr'
+      have hmem := members_sound hms hm
+      rcases instStep_ok hstep with ⟨b, tms, hel', hleaf⟩ | ⟨c', hel', hc, hrec⟩
+      · obtain ⟨tm, _, _, rfl⟩ := mkLeaf_ok hleaf
+        cases hel
+      · obtain ⟨q, c'', hs, hi, hme⟩ := ih hrec hel
+        exact ⟨m.comp.name :: q, c'', by simp [hs], .sub hmem hc (elemOf_none hel') hi, hme⟩
+    · obtain ⟨x, hx, rfl⟩ := List.mem_map.mp he
+      exact ⟨[], c, by simp, .here c, memberEqs_sound heqs hx⟩
+
+theorem inst_eqs_complete {lib : Lib} {c q c' : Path} (hi : InstAt lib c q c') {x : Expr × Expr}
+    (hx : MemberEq lib c' x) :
+    ∀ {f : Nat} {P : Path} {outer : List MMod} {dims : List Nat} {r : List Var × List IEq},
+      instF f lib c P outer dims = .ok r → ({ scope := P ++ q, lhs := x.1, rhs := x.2 } : IEq) ∈ r.2 := by
+  induction hi with
+  | here c =>
+    intro f P outer dims r h
+    obtain ⟨f', ms, eqs, rs, hf, hms, _, _, heqs, hrs, rfl⟩ := instF_ok h
+    refine List.mem_append_right _ (List.mem_map.mpr ⟨x, memberEqs_complete hx heqs, by simp⟩)
+  | sub hmem hc hne _ ih =>
+    intro f P outer dims r h
+    obtain ⟨f', ms, eqs, rs, hf, hms, _, _, heqs, hrs, rfl⟩ := instF_ok h
+    obtain ⟨m, hm, rfl⟩ := members_complete hmem hms
+    obtain ⟨r', hr', hstep⟩ := mapE_mem_left hrs hm
+    rcases instStep_ok hstep with ⟨b', tms, he, _⟩ | ⟨c'', he, hc', hrec⟩
+    · exact absurd (elemOf_some he) (hne _)
+    · rw [hc] at hc'; cases hc'
+      have := ih hx hrec
+      refine List.mem_append_left _ (List.mem_flatten.mpr ⟨_, List.mem_map.mpr ⟨_, hr', rfl⟩, ?_⟩)
+      simpa using this
 
 end PymocaVerif.Flatten
